@@ -78,6 +78,11 @@ def _geturl_stub(ev, args, kwargs, node):
 
 
 def _ctor_stub(ev, args, kwargs, node):
+    """self.__class__(text): URL.__init__ parses the text with urlsplit, which rejects some authorities (unbalanced or
+    misplaced brackets) with ValueError (A-urlsplit)"""
+    from pyvc.engine import PyRaise
+    if ev.st.choose([z3.BoolVal(True)] * 2, force_record=True) == 1:
+        raise PyRaise("ValueError", None, getattr(node, "lineno", 0))
     return ev.st.alloc(Obj(D + ":URL", {"_url": args[0]}))
 
 
@@ -155,7 +160,9 @@ URL_REPLACE = Contract(
         "implies(has(kwargs, 'port') and not is_none(kwargs['port']), kwargs['port'] >= 0)",
     ],
     modifies=["kwargs"], frame_check=False, lazy_opt=True,
-    raises={},       # (an empty host is kept empty: no IndexError)
+    # (an empty host is kept empty: no IndexError.)  ValueError: the re-assembled text is parsed again by URL.__init__, and
+    # urlsplit rejects e.g. a '[' without ']' in the authority - callers that edit a client-supplied URL have to expect it
+    raises={"ValueError": None},
     ensures={
         # every component that is not named keeps its value and every named one takes the given value: the new URL is
         # geturl() of the five split fields, where the authority is re-assembled from (user, password, host, port) with
@@ -172,6 +179,42 @@ URL_REPLACE = Contract(
     notes="SplitResult is abstract: five string fields plus the derived username / password / port that urlsplit computed "
           "from netloc (their relation to netloc is A-urlsplit, exercised by the bounded part); _replace and geturl are "
           "modelled as a field-wise copy and an uninterpreted function of the five fields",
+)
+
+
+# --------------------------------------------------------------------------- URL.__repr__ (password masked; never raises)
+def _geturl_method(ev, recv, args, kwargs, node):
+    from pyvc.stubs import USED
+    USED.add("A-urlsplit-2")
+    o = ev.st.obj(recv)
+    return VStr(GETURL(*[o.fields[f].t for f in ("scheme", "netloc", "path", "query", "fragment")]))
+
+
+_geturl_method.mods = ()
+_geturl_method.mutates_recv = False
+
+URL_STR = Contract(id="URL.__str__", file=D, qualname="URL.__str__", inline=True, props=["C18"], notes="one line, executed inline")
+URL_REPR = Contract(
+    id="URL.__repr__", file=D, qualname="URL.__repr__", props=["C12", "C18"],
+    params={"self": ObjT(D + ":URL", _url=Str, _components=SPLIT_T)}, returns=Str,
+    defs={"pw()": "self._components.password", "n()": "self._components.netloc",
+          "masked()": "not is_none(pw()) and pw() != ''"},
+    ufuncs={"geturl": ([Str, Str, Str, Str, Str], Str), "repr_str": ([Str], Str)},
+    stubs={"self.components._replace": _replace_stub},
+    stub_methods={("SplitResult", "geturl"): _geturl_method},
+    frame_check=False,
+    # whatever the client put into the Host header: printing the URL (logging) cannot fail
+    raises={},
+    ensures={
+        "plain": "implies(not masked(), result == 'URL(' + repr_str(self._url) + ')')",
+        # the text between the first ':' of the user information and the last '@' is replaced by the mask; nothing is parsed again
+        "masked": "implies(masked(), result == 'URL(' + repr_str(geturl(self._components.scheme, "
+                  "n().rpartition('@')[0].partition(':')[0] + ':********@' + n().rpartition('@')[2], "
+                  "self._components.path, self._components.query, self._components.fragment)) + ')')",
+    },
+    canaries={"never_masks": "not masked()"},
+    assumptions=["A-urlsplit-2", "A-split"],
+    notes="SplitResult abstract as in URL.replace; the class name in the output is the literal 'URL' (subclasses: bounded)",
 )
 
 
@@ -269,6 +312,8 @@ URL_INIT_ENVIRON = Contract(
 def register(reg):
     reg.add(URL_INIT_SCOPE)
     reg.add(URL_INIT_ENVIRON)
+    reg.add(URL_REPR)
+    reg.add(URL_STR)
     reg.add(BUILD_URL)
     reg.add(URL_REPLACE)
     for prop in ("components", "netloc", "port", "username", "password"):
